@@ -25,7 +25,7 @@ def gen(rng, index, tier):
     kind = rng.choice(["front", "front", "consistent"])
     if kind == "front":
         nmax = 6 if tier == "quick" else 7
-        fam = rng.choice(["sparse", "blocky", "blocky", "uniform", "near", "complete"])
+        fam = rng.choice(["sparse", "blocky", "cyclic", "cyclic", "uniform", "near", "complete"])
         raw, meta = lib.gen_dataset(rng, nmax=nmax, mmax=5, family=fam, nmin=2)
         return {"kind": kind, "dataset": raw, "scheme": partcommon.sparse_scheme(rng), "meta": meta}
     n = rng.randint(1, 7)
